@@ -57,6 +57,14 @@ REG = {
                 text="Generated stripped pairs with additions, removals, alias/binding/version changes; reported removed/added symbols must equal readelf's set difference, removal => INCOMPATIBLE, equal sets => exit 0; one recorded defect (alias additions) is a known finding; exploration only.", note=_T1),
     "C23": dict(engine="progfuzz", technique="property-based testing (generated decoupled multi-change pairs x one targeted function/variable suppression; exact expected delta of entries and summary numbers)",
                 text="Generated C pairs whose changed/added/removed interfaces have private causes; one generated section names one of them (name, name_regexp, symbol_name, symbol_name_regexp, symbol_version) with random change_kind; exactly that entry must vanish and exactly one summary column must move by one, or nothing at all when change_kind does not cover it; exploration only.", note=_T1),
+    "C24": dict(engine="progfuzz", technique="property-based testing (control + treatment: a base type suppression must hide a generated struct change, the same section plus one violated constraint must not; layout model re-checked by _Static_assert)",
+                text="Generated struct changes (insert at random position, remove, shrink, retype) x access path x one violated constraint (type_kind, source_location_not_in, accessed_through, insertion ranges under every reading the manual allows, invalid regexp); only cases whose control passes count; one recorded defect (accessed_through = direct) is a known finding; exploration only.", note=_T1),
+    "C26": dict(engine="progfuzz", technique="property-based testing (generated public/private header splits x one mutation; model-derived expected verdict under --headers-dir / --header-file / --drop-private-types, with a no-option control)",
+                text="Generated libraries whose types are split between a public and a private header; public-type mutations must stay reported, private-type mutations must be filtered, --drop-private-types must not change the public verdict; one recorded defect (category propagation through a private type) is a known finding; exploration only.", note=_T1),
+    "C29": dict(engine="progfuzz", technique="property-based testing (generated library + really linked application using a random subset of interfaces + mutations inside / outside that subset; model-derived expected verdict, weak mode included)",
+                text="Generated LIB1/APP/LIB2 triples; changes to used interfaces must be reported (removals as incompatible), changes confined to unused interfaces must leave the verdict of APP LIB1 LIB1, weak mode must report a layout mismatch of a type only a used function reaches; one recorded defect (application without variable references) is a known finding; exploration only.", note=_T1),
+    "C30": dict(engine="progfuzz", technique="property-based testing (generated package directories / tar archives with unchanged, changed, removed and added libraries; differential against abidiff per pair + status invariants)",
+                text="Generated package pairs; removed binary => change+incompatible bits, per-binary sections agree with abidiff on the same pair, exit 0 <=> nothing removed and all pairs clean; exploration only (no rpm/deb tooling in the sandbox).", note=_T1),
     "C38": dict(engine="apicheck", technique="exhaustive small-scope enumeration + rapidcheck against a reference LCS",
                 text="All pairs of sequences up to length 6 (quick) / 8 (thorough) over 3 letters are enumerated (exhaustive for that scope) and random long sequences with non-trivial predicates are sampled; oracle is an independent O(nm) LCS.", note=_T2),
     "C39": dict(engine="apicheck", technique="rapidcheck round-trip (config->text->config and text->config->text->config)",
